@@ -53,6 +53,7 @@ class HumanMessageSerializer:
         env = env or {}
         first_line = True
         cur_block = None
+        deferred_packs = []
         msg = None
         lines = [x.strip() for x in string.split("\n") if x.strip()]
         while lines:
@@ -129,9 +130,33 @@ class HumanMessageSerializer:
                     serializer = se.SUBFIELD_SERIALIZERS.get(ser_key)
                     if not serializer:
                         raise KeyError(f"No subfield serializer for {ser_key!r}")
-                    var_val = serializer.serialize(cur_block, var_val)
+                    # Packers may need to look at other fields in the block (`State` is packed
+                    # differently depending on `PCode`) that might only come later in the text.
+                    # Hold off on packing until the whole message has been read.
+                    deferred_packs.append((cur_block, var_name, serializer, var_val))
+                    var_val = None
 
                 cur_block[var_name] = var_val
+
+        # A packer may depend on a field that itself needs to be packed (`PCode`), so
+        # keep making passes until the packed values stop changing.
+        max_passes = len(deferred_packs) + 1
+        for pass_num in range(max_passes):
+            changed = False
+            for block, var_name, serializer, var_val in deferred_packs:
+                try:
+                    packed_val = serializer.serialize(block, var_val)
+                except Exception:
+                    # Might just be missing a field that'll be packed later in this pass
+                    if pass_num == max_passes - 1:
+                        raise
+                    changed = True
+                    continue
+                if block[var_name] != packed_val:
+                    block[var_name] = packed_val
+                    changed = True
+            if not changed:
+                break
         return msg
 
     @classmethod
